@@ -65,7 +65,9 @@ VSop(ev) ==
      IF ~IsVal(o) THEN "revcomp:returns"
      ELSE IF o[2] # RevCompSeq(pc) THEN "revcomp:chars"
      ELSE IF ~ConsistentSeq(o[2], o[3], o[4], root)
-          THEN (IF ph /\ SelfOverlap(pl) THEN "revcomp:selfoverlap-order" ELSE "revcomp:location-consistent")
+          \* (the finding is about ORDER: the recorded location still holds the receiver's bases, each as often as before)
+          THEN (IF ph /\ SelfOverlap(pl) /\ o[4] /\ ~IsEmptyLoc(o[3]) /\ BagOfSeq(Bases(o[3])) = BagOfSeq(Bases(pl))
+                THEN "revcomp:selfoverlap-order" ELSE "revcomp:location-consistent")
      ELSE IF o[4] # ph /\ Len(pc) > 0 THEN "revcomp:keeps-location"
      ELSE Ok(~ph \/ IsEmptyLoc(pl) \/ Len(pc) = 0 \/ (St(o[3]) = RevStrand(St(pl)) /\ PosSet(o[3]) = PosSet(pl)), "revcomp:location")
   ELSE IF op = "append" THEN
@@ -77,7 +79,14 @@ VSop(ev) ==
      IF IsVal(o) THEN
         IF o[2] # pc \o oc THEN "append:chars"
         ELSE IF ~ConsistentSeq(o[2], o[3], o[4], root)
-             THEN (IF (ph /\ SelfOverlap(pl)) \/ (oh /\ SelfOverlap(ol)) THEN "append:selfoverlap-order" ELSE "append:location-consistent")
+             \* Named deviation: the union of the two recorded locations keeps blocks that overlap each other when one operand
+             \* is a single block (optimize_blocks) and merges them when both are multi-block (optimize_and_combine_blocks);
+             \* only the block list that rule predicts is filed under the order finding
+             THEN (IF ((ph /\ SelfOverlap(pl)) \/ (oh /\ SelfOverlap(ol))) /\ ph /\ oh /\ o[4] /\ ~IsEmptyLoc(o[3])
+                      /\ LET both == SortSeq(pl[1] \o ol[1], LAMBDA x, y : x[1] < y[1] \/ (x[1] = y[1] /\ x[2] < y[2]))
+                             pred == AlgoCombine(<<both, St(pl)>>, NB(pl) > 1 /\ NB(ol) > 1) IN
+                         ~IsEmptyLoc(pred) /\ SortSeq(o[3][1], LAMBDA x, y : x[1] < y[1] \/ (x[1] = y[1] /\ x[2] < y[2])) = pred[1]
+                   THEN "append:selfoverlap-order" ELSE "append:location-consistent")
         ELSE Ok(~compatible \/ o[4], "append:keeps-location")
      ELSE IF ~Rejected(o) THEN "append:internal-error"
      ELSE Ok(~compatible /\ (ph \/ oh), "append:returns")
